@@ -24,8 +24,8 @@ ASSUMPTIONS = ['reference tokenizer pbt/props/c14.py:ref_tokenize (written from 
                "alphabet {delimiter,a,b} is complete for the parser's control flow (it only tests "
                "equality with the delimiter)"]
 BUDGET = {
-    'quick': dict(examples=6000, time_s=240, L=11),
-    'thorough': dict(examples=200000, time_s=1500, L=14),
+    'quick': dict(examples=6000, time_s=240, L=11, fuzz=dict(workers=4, runs=1500, max_s=60)),
+    'thorough': dict(examples=200000, time_s=1500, L=14, fuzz=dict(workers=8, runs=40000, max_s=400)),
 }
 
 
